@@ -270,9 +270,18 @@ def rule_getnew(ctx: Ctx) -> RuleResult:
         res.ok("DataSid.get_last search", "FindInAll().find_one(self.get_with(key=key, value='>'), as_sid=True)")
     else:
         res.violation([gl.qualname, "search"], "get_last is not find_one of self with the key set to '>'", gl.relpath, gl.node.lineno)
+    from ..shape import facts_at as _facts_at
+
+    keyp = gl.params[1] if len(gl.params) > 1 else "key"
     for r in _rets(gl):
         v = r.value
         if _is_empty_sid(v):
+            # get_last(key) is asked for keys the Sid does not carry yet (a task Sid asking for its last version): the only
+            # early 'nothing' is the undefined Sid
+            bad = [t for t, truth in _facts_at(ctx, gl, r) if not truth and t.startswith(f"{keyp} in ") and "_fields" in t]
+            if bad:
+                res.violation([gl.qualname, "early empty", bad[0]], f"get_last returns the empty Sid when `{bad[0]}` is false: the last entry of a "
+                                                                    f"key below the Sid (task -> version) is never found", gl.relpath, r.lineno)
             continue
         tests = [(norm(t), lab) for t, lab in ctx.ef._dominating_tests(cfg, r)]
         if norm(v) == "found" and ("found.get(key)", "true") in tests:
